@@ -10,6 +10,7 @@ from ..cfg import cfg_of, is_catch_all, literals
 from ..dataflow import Defs, atoms, calls_in, inline, provenance, stmt_of
 from ..index import AnalysisError, call_name, dotted, enclosing, head, norm, walk_body
 from ..monitor import Monitor, enclosing_lock_with, is_lock_with
+from ..pattern import find as pfind, pmatch
 from ..witness import W
 
 MAILBOX = "strax/mailbox.py"
@@ -291,6 +292,8 @@ def run(chk):
     r5_removal(chk, repo, mon, funcs)
     r6_blocking(chk, repo, mon, funcs)
     r7_termination(chk, repo, mon)
+    r8_numbering(chk, repo, mon)
+    r9_forwarding(chk, repo)
 
 
 # ------------------------------------------------------------------------------------ R1
@@ -853,7 +856,222 @@ def r7_termination(chk, repo, mon):
               site_text="Mailbox._read: end marker recognised in extraction and in delivery")
 
 
+
+# ------------------------------------------------------------------------------------ R8
+def _top_level_index(body, pred):
+    return [i for i, st in enumerate(body) if pred(st)]
+
+
+def r8_numbering(chk, repo, mon):
+    chk.describe(
+        "C05.R8",
+        "numbering and cursor discipline: unnumbered messages take the send counter, which starts "
+        "where every reader's cursor starts and advances once per insert; a reader takes message "
+        "<cursor>, queues it, advances the cursor by one, publishes cursor-1 as read, and yields every "
+        "queued message (stopping only at the end marker)",
+    )
+    R = "C05.R8"
+    init = repo.func("Mailbox.__init__", MAILBOX)
+    send = repo.func("Mailbox.send", MAILBOX)
+    rd = repo.func("Mailbox._read", MAILBOX)
+    # -- the counter and the cursor start at the same number
+    n0 = [st for st in walk_body(init.node) if isinstance(st, ast.Assign) and any(norm(t) == "self._n_sent" for t in st.targets)]
+    chk.need(len(n0) == 1 and isinstance(n0[0].value, ast.Constant), "C05.R8: Mailbox.__init__ no longer initialises self._n_sent with a constant")
+    loops = [n for n, b in pfind(rd.node, "self._has_msg(L_cur)") if isinstance(getattr(n, "_parent", None), ast.While) and n._parent.test is n]
+    chk.need(len(loops) == 1, "C05.R8: extraction loop `while self._has_msg(<cursor>)` not found in Mailbox._read")
+    xloop = loops[0]._parent
+    CUR = loops[0].args[0].id
+    cur_defs = [st for st in walk_body(rd.node) if isinstance(st, (ast.Assign, ast.AugAssign, ast.AnnAssign)) and any(isinstance(t, ast.Name) and t.id == CUR for t in (st.targets if isinstance(st, ast.Assign) else [st.target]))]
+    inits = [st for st in cur_defs if isinstance(st, ast.Assign)]
+    incs = [st for st in cur_defs if isinstance(st, ast.AugAssign)]
+    ok = len(inits) == 1 and isinstance(inits[0].value, ast.Constant) and inits[0].value.value == n0[0].value.value and enclosing(inits[0], (ast.While, ast.For)) is None
+    chk.check(ok, R, rd, inits[0] if inits else None, "a reader's cursor does not start at the number the send counter starts at (once, before the read loop): the first message is skipped or never found",
+              site_text="Mailbox._read: cursor initialised once to the initial value of _n_sent")
+    # -- extraction loop body: get <cursor>, queue (cursor, msg), cursor += 1 (in this order, unconditionally)
+    body = xloop.body
+    gets = _top_level_index(body, lambda st: isinstance(st, ast.Assign) and pmatch(f"self._get_msg({CUR})", st.value) is not None and isinstance(st.targets[0], ast.Name))
+    chk.check(len(gets) == 1, R, rd, xloop, "the extraction loop does not fetch exactly the message numbered <cursor>", site_text="Mailbox._read: msg = self._get_msg(cursor)")
+    MSG = body[gets[0]].targets[0].id if gets else None
+    apps = _top_level_index(body, lambda st: isinstance(st, ast.Expr) and MSG is not None and pmatch(f"L_q.append(({CUR}, {MSG}))", st.value) is not None)
+    chk.check(len(apps) == 1, R, rd, xloop, "a message taken by the cursor is not queued (exactly once, unconditionally) for delivery: it is lost or duplicated", site_text="Mailbox._read: queue.append((cursor, msg)) once per extracted message")
+    Q = body[apps[0]].value.func.value.id if apps else None
+    adv = _top_level_index(body, lambda st: isinstance(st, ast.AugAssign) and isinstance(st.target, ast.Name) and st.target.id == CUR and isinstance(st.op, ast.Add) and isinstance(st.value, ast.Constant) and st.value.value == 1)
+    chk.check(len(adv) == 1 and len(incs) == 1, R, rd, xloop, "the cursor does not advance by exactly one per extracted message (and nowhere else): messages are skipped, delivered twice, or the loop never ends",
+              site_text="Mailbox._read: cursor += 1 exactly once per extracted message")
+    chk.check(bool(gets and apps and adv) and gets[0] < apps[0] < adv[0], R, rd, xloop, "message fetch, queueing and cursor advance are out of order (a message would be queued under the wrong number)",
+              site_text="Mailbox._read: get -> queue -> advance")
+    # -- end marker ends the outer loop
+    outer = enclosing(xloop, (ast.While,))
+    chk.need(outer is not None, "C05.R8: outer read loop not found")
+    LAST = None
+    if isinstance(outer.test, ast.UnaryOp) and isinstance(outer.test.op, ast.Not) and isinstance(outer.test.operand, ast.Name):
+        LAST = outer.test.operand.id
+    marks = [st for st in walk_body(xloop) if isinstance(st, ast.Assign) and LAST and pmatch(f"{LAST} = True", st) is not None]
+    rcfg = cfg_of(rd)
+    okm = bool(marks) and MSG is not None and all((f"{MSG} is StopIteration", True) in rcfg.guard_facts(rcfg.node_of(m)) for m in marks)
+    chk.check(okm, R, rd, marks[0] if marks else outer, "the read loop does not end exactly when the end marker has been extracted", site_text="Mailbox._read: last_message = True iff msg is StopIteration")
+    # -- the queue is fresh in every round, inside the lock region
+    xn = rcfg.node_of(xloop)
+    if Q:
+        fresh = [st for st in walk_body(outer) if isinstance(st, ast.Assign) and pmatch(f"{Q} = []", st) is not None]
+        dom = rcfg.dominators("n")
+        chk.check(len(fresh) == 1 and rcfg.node_of(fresh[0]) in dom[xn] and enclosing(fresh[0], (ast.While,)) is outer, R, rd, fresh[0] if fresh else xloop,
+                  "the delivery queue is not emptied at the start of every round: messages of the previous round are delivered again", site_text="Mailbox._read: queue = [] in every round before extraction")
+    # -- progress published as cursor - 1 after the extraction
+    pubs = [st for st in walk_body(outer) if isinstance(st, ast.Assign) and isinstance(st.targets[0], ast.Subscript) and norm(st.targets[0].value) == "self._subscribers_have_read"]
+    okp = len(pubs) == 1 and pmatch(f"{CUR} - 1", pubs[0].value) is not None and norm(pubs[0].targets[0].slice) == rd.params[1]
+    if okp:
+        pn = rcfg.node_of(pubs[0])
+        okp = xn in rcfg.dominators("n")[pn] and enclosing(pubs[0], (ast.While,)) is outer
+    chk.check(okp, R, rd, pubs[0] if pubs else outer, "the subscriber does not publish `cursor - 1` as the last message it has read, after extraction: the clean-up drops unread messages or never frees read ones",
+              site_text="Mailbox._read: _subscribers_have_read[subscriber_i] = cursor - 1 after extraction")
+    # -- delivery loop: every queued message is yielded, the loop is left early only at the end marker
+    dl = [st for st in walk_body(outer) if isinstance(st, ast.For) and Q and norm(st.iter) == Q]
+    chk.check(len(dl) == 1, R, rd, outer, "queued messages are not delivered by a single loop over the queue", site_text="Mailbox._read: for ... in queue")
+    for loop in dl:
+        ln = rcfg.node_of(loop)
+        tgt = loop.target
+        DM = tgt.elts[1].id if isinstance(tgt, ast.Tuple) and len(tgt.elts) == 2 and isinstance(tgt.elts[1], ast.Name) else None
+        first = [n for n in rcfg.nodes_of(loop.body[0])]
+        is_yield = lambda n: n.kind == "stmt" and not isinstance(n.stmt, (ast.If, ast.While, ast.For, ast.Try, ast.With)) and any(isinstance(x, ast.Yield) for x in ast.walk(n.stmt))
+        inside = {id(x) for st_ in loop.body for x in ast.walk(st_)}
+        in_loop = lambda n: id(n.stmt if n.kind == "stmt" else n.owner) in inside
+        okd = all(is_yield(f0) for f0 in first) or rcfg.every_path(first, [ln], lambda n: is_yield(n) or (n is not ln and not in_loop(n)), "n")[0]
+        chk.check(okd, R, rd, loop, "an iteration of the delivery loop can finish without yielding the message (silently dropped)", site_text="Mailbox._read: every delivery iteration yields")
+        for b in [n for n in rcfg.stmt_nodes() if isinstance(n.stmt, (ast.Break, ast.Return)) and enclosing(n.stmt, (ast.For,)) is loop]:
+            chk.check(DM is not None and (f"{DM} is StopIteration", True) in rcfg.guard_facts(b), R, rd, b.stmt, "the delivery loop is left early for something other than the end marker: the remaining queued messages are lost",
+                      site_text="Mailbox._read: break only at the end marker")
+        ys = [x for st in walk_body(loop) for x in ([st.value] if isinstance(st, ast.Expr) and isinstance(st.value, ast.Yield) else [])]
+        for y in ys:
+            ok = False
+            if isinstance(y.value, ast.Name) and DM:
+                vals = [norm(d[1]) for d in _reach(rd).defs_of(rcfg.node_of(stmt_of(y)), y.value.id) if d[1] is not None]
+                ok = bool(vals) and all(v == DM or v.startswith(f"{DM}.result(") for v in vals)
+            elif DM and norm(y.value) == DM:
+                ok = True
+            chk.check(ok, R, rd, stmt_of(y), "what is yielded is not the queued message (or the result of the queued future)", site_text="Mailbox._read: yield msg / msg.result()")
+    # -- send: numbering
+    scfg = cfg_of(send)
+    NUM, MSGP = send.params[2], send.params[1]
+    auto = [st for st in walk_body(send.node) if isinstance(st, ast.Assign) and pmatch(f"{NUM} = self._n_sent", st) is not None]
+    chk.check(len(auto) == 1 and (f"{NUM} is None", True) in scfg.guard_facts(scfg.node_of(auto[0])), R, send, auto[0] if auto else None, "an unnumbered message does not get the send counter as its number", site_text="Mailbox.send: msg_number = self._n_sent iff None")
+    pushes = [n for n in scfg.stmt_nodes() if not isinstance(n.stmt, (ast.With, ast.If, ast.While, ast.For, ast.Try)) and any((call_name(c) or "").endswith("heappush") for c in calls_in(n.stmt))]
+    chk.check(len(pushes) == 1, R, send, pushes[1].stmt if len(pushes) > 1 else None, "Mailbox.send inserts into the heap at more than one place (or nowhere)", site_text="Mailbox.send: single insert")
+    if not pushes:
+        return
+    pc = [c for c in calls_in(pushes[0].stmt) if (call_name(c) or "").endswith("heappush")][0]
+    chk.check(len(pc.args) == 2 and norm(pc.args[0]) == "self._mailbox" and norm(pc.args[1]) == f"({NUM}, {MSGP})", R, send, pushes[0].stmt, "the message is not stored under its number", site_text="Mailbox.send: heappush(_mailbox, (msg_number, msg))")
+    counts = [n for n in scfg.stmt_nodes() if isinstance(n.stmt, ast.AugAssign) and norm(n.stmt.target) == "self._n_sent"]
+    okc = len(counts) == 1 and isinstance(counts[0].stmt.op, ast.Add) and isinstance(counts[0].stmt.value, ast.Constant) and counts[0].stmt.value.value == 1
+    if okc:
+        okc = pushes[0] in scfg.dominators("n")[counts[0]] and scfg.every_path([pushes[0]], [scfg.exit_return], lambda n: n is counts[0], "n")[0] \
+            and enclosing_lock_with(counts[0].stmt) is enclosing_lock_with(pushes[0].stmt) and enclosing_lock_with(pushes[0].stmt) is not None
+    chk.check(okc, R, send, counts[0].stmt if counts else pushes[0].stmt, "the send counter does not advance by one per inserted message in the insert's lock region: automatic numbers repeat or skip, so a message is never delivered",
+              site_text="Mailbox.send: _n_sent += 1 once per insert")
+    stale = [n for n in scfg.stmt_nodes() if isinstance(n.stmt, ast.Raise) and any(pmatch(f"{NUM} <= L_r", e) is not None and pol is True for e, pol, g in scfg.guard_literals(n))]
+    okr = False
+    for n in stale:
+        for e, pol, g in scfg.guard_literals(n):
+            b = pmatch(f"{NUM} <= L_r", e)
+            if b is not None and pol is True:
+                rdefs = [st for st in walk_body(send.node) if isinstance(st, ast.Assign) and pmatch(f"{b['L_r']} = min(self._subscribers_have_read, default=-1)", st) is not None]
+                okr = okr or bool(rdefs)
+    chk.check(okr, R, send, None, "a message numbered at or below what every subscriber has already read is accepted: it can never be delivered", site_text="Mailbox.send: raise if msg_number <= min(have_read)")
+    # -- lookups compare numbers for equality
+    gm = repo.func("Mailbox._get_msg", MAILBOX)
+    ok = any(isinstance(st, ast.For) and norm(st.iter) == "self._mailbox" and isinstance(st.target, ast.Tuple) and len(st.target.elts) == 2
+             and any(isinstance(i, ast.If) and pmatch(f"{st.target.elts[0].id} == {gm.params[1]}", i.test) is not None and i.body and isinstance(i.body[0], ast.Return) and norm(i.body[0].value) == norm(st.target.elts[1]) for i in st.body)
+             for st in gm.node.body)
+    chk.check(ok, R, gm, None, "_get_msg does not return the message stored under the requested number", site_text="Mailbox._get_msg: returns msg whose number == argument")
+    hm = repo.func("Mailbox._has_msg", MAILBOX)
+    rets = [st for st in walk_body(hm.node) if isinstance(st, ast.Return)]
+    ok = any(isinstance(r.value, ast.Call) and call_name(r.value) == "any" and f"== {hm.params[1]}" in norm(r.value) and "self._mailbox" in norm(r.value) for r in rets)
+    chk.check(ok, R, hm, None, "_has_msg does not test for a stored message with the requested number", site_text="Mailbox._has_msg: any(number == argument)")
+    lo = repo.cls("Mailbox").methods.get("_lowest_msg_number")
+    chk.check(lo is not None and any(isinstance(st, ast.Return) and norm(st.value) == "self._mailbox[0][0]" for st in walk_body(lo.node)), R, lo or rd, None, "_lowest_msg_number is not the number at the top of the heap", site_text="Mailbox._lowest_msg_number: _mailbox[0][0]")
+
+
+def _reach(func):
+    from ..rules import reaching
+    return reaching(func)
+
+
+# ------------------------------------------------------------------------------------ R9
+def r9_forwarding(chk, repo):
+    chk.describe("C05.R9", "sender loops forward every item they take from their source, once, to (each of) their mailbox(es) before taking the next one; they stop only when the source is exhausted")
+    R = "C05.R9"
+    for qn in ("Mailbox._send_from", "divide_outputs"):
+        f = repo.func(qn, MAILBOX)
+        cfg = cfg_of(f)
+        src = f.params[1] if qn.startswith("Mailbox.") else f.params[0]
+        takes = [(st, b) for st, b in pfind(f.node, f"L_x = next({src})")]
+        chk.check(len(takes) == 1, R, f, None, f"{qn} does not advance its source at exactly one place", site_text=f"{qn}: x = next(source)")
+        if len(takes) != 1:
+            continue
+        take, b = takes[0]
+        X = b["L_x"]
+        tn = cfg.node_of(take)
+        loop = enclosing(take, (ast.While,))
+        chk.need(loop is not None, f"C05.R9: {qn}: source is not advanced inside a loop")
+        ln = cfg.node_of(loop)
+        if qn.startswith("Mailbox."):
+            def is_fwd(n):
+                return n.kind == "stmt" and not isinstance(n.stmt, (ast.If, ast.While, ast.For, ast.Try, ast.With)) and any(pmatch(f"self.send({X})", c) is not None for c in calls_in(n.stmt))
+            fwd_desc = "self.send(x)"
+        else:
+            mbs = f.params[1]
+            def is_fwd(n):
+                if not (n.kind == "stmt" and isinstance(n.stmt, ast.For)):
+                    return False
+                lp = n.stmt
+                if not (isinstance(lp.target, ast.Name) and norm(lp.iter) in _output_names(f)):
+                    return False
+                d = lp.target.id
+                return any(isinstance(st, ast.Expr) and pmatch(f"{mbs}[{d}].send({X}[{d}])", st.value) is not None for st in lp.body)
+            fwd_desc = "for d in outputs: mailboxes[d].send(result[d])"
+        ok, path = cfg.every_path([tn], [ln], is_fwd, "n")
+        chk.check(ok, R, f, take, f"{qn}: an item taken from the source can be dropped without being sent ({fwd_desc} is not on every path to the next round)",
+                  site_text=f"{qn}: every item taken is forwarded before the next one is taken", site={"function": qn, "rule": "forward every item"})
+        n_fwd = [n for n in cfg.stmt_nodes() if is_fwd(n)]
+        chk.check(len(n_fwd) == 1, R, f, n_fwd[1].stmt if len(n_fwd) > 1 else take, f"{qn}: an item is forwarded at {len(n_fwd)} places (sent twice or never)", site_text=f"{qn}: single forwarding site")
+        # leaving the loop normally only on exhaustion of the source
+        for bn in [n for n in cfg.stmt_nodes() if isinstance(n.stmt, (ast.Break, ast.Return)) and enclosing(n.stmt, (ast.While,)) is loop]:
+            h = enclosing(bn.stmt, (ast.ExceptHandler,))
+            okb = h is not None and h.type is not None and norm(h.type) == "StopIteration" and any(take in ast.walk(t) for t in [enclosing(h, (ast.Try,))] if t is not None and any(take is x for b_ in t.body for x in ast.walk(b_)))
+            chk.check(okb, R, f, bn.stmt, f"{qn}: the sender loop is left although the source is not exhausted: the remaining items are never sent", site_text=f"{qn}: loop left only on StopIteration of the source")
+        chk.check(isinstance(loop.test, ast.Constant) and loop.test.value is True, R, f, loop, f"{qn}: the sender loop has its own termination condition", site_text=f"{qn}: while True")
+
+
+def _output_names(f):
+    """Names the output-key collection of divide_outputs goes by (the parameter)."""
+    return {"outputs"} & set(f.params)
+
+
 WITNESSES = [
+    W("sender drops every item", "C05.R9", MAILBOX,
+      "try:\n                    self.send(x)\n                except Exception as e:", "try:\n                    pass\n                except Exception as e:"),
+    W("sender forwards only truthy items", "C05.R9", MAILBOX,
+      "try:\n                    self.send(x)\n                except Exception as e:", "try:\n                    if x is not None:\n                        self.send(x)\n                except Exception as e:"),
+    W("mail sorter sends the wrong key", "C05.R9", MAILBOX,
+      "mailboxes[d].send(result[d])", "mailboxes[d].send(result[list(outputs)[0]])"),
+    W("mail sorter stops after the first round", "C05.R9", MAILBOX,
+      "source.throw(e)\n                raise\n            i += 1", "source.throw(e)\n                raise\n            i += 1\n            if i > 1000000:\n                break"),
+    W("extracted message not queued", "C05.R8", MAILBOX,
+      "to_yield.append((next_number, msg))\n                    next_number += 1", "next_number += 1"),
+    W("cursor advanced before queueing", "C05.R8", MAILBOX,
+      "to_yield.append((next_number, msg))\n                    next_number += 1", "next_number += 1\n                    to_yield.append((next_number, msg))"),
+    W("reader starts at message 1", "C05.R8", MAILBOX,
+      "next_number = 0\n        last_message = False", "next_number = 1\n        last_message = False"),
+    W("progress published as the cursor itself", "C05.R8", MAILBOX,
+      "self._subscribers_have_read[subscriber_i] = next_number - 1", "self._subscribers_have_read[subscriber_i] = next_number"),
+    W("send counter not advanced", "C05.R8", MAILBOX,
+      "self._n_sent += 1\n            self._read_condition.notify_all()", "self._read_condition.notify_all()"),
+    W("delivery loop skips non-future messages", "C05.R8", MAILBOX,
+      "else:\n                    res = msg\n\n                try:", "else:\n                    continue\n\n                try:"),
+    W("stale numbers accepted", "C05.R8", MAILBOX,
+      "if msg_number <= read_until:", "if msg_number < read_until:"),
+    W("_get_msg returns the first stored message", "C05.R8", MAILBOX,
+      "if msg_number == number:\n                return msg", "if msg_number >= number:\n                return msg"),
     W("access _mailbox before taking the lock in send", "C05.R1", MAILBOX,
       "with self._lock:\n            if self.closed:\n                raise MailBoxAlreadyClosed",
       "n_now = len(self._mailbox)\n        with self._lock:\n            if self.closed:\n                raise MailBoxAlreadyClosed"),
